@@ -317,7 +317,14 @@ class Scenario:
             elif k < 70:
                 o = None if rng.chance(1, 4) else rng.choice(tops + [rng.choice(structural or allo)])
                 lst = rng.randint(0, nlist - 1) if nlist and rng.chance(1, 3) else None
-                ops.append(('getHier', rng.randint(0, ngen - 1), o, rng.randint(0, 1), 'Forced' if rng.chance(1, 10) else None, lst))
+                gi = rng.randint(0, ngen - 1)
+                ops.append(('getHier', gi, o, rng.randint(0, 1), 'Forced' if rng.chance(1, 10) else None, lst))
+                if o is not None and rng.chance(1, 3):
+                    # explicit sub-object request followed by a default-object request on the SAME generator
+                    if rng.chance(1, 2):
+                        ops.append(('getHier', gi, None, rng.randint(0, 1), None, None))
+                    else:
+                        ops.append(('getVerilog', gi, None, rng.randint(0, 1), None))
             elif k < 78:
                 init = [rng.choice(names) for _ in range(rng.randint(0, 2))] if names else []
                 ops.append(('newList', init))
@@ -355,6 +362,7 @@ class Scenario:
         self.q('begin')
         heap_len, list_ref, epoch = 0, [], 0
         seen = {}          # request key -> canonical text (repeatability)
+        gen_own = []
         self.last_text = {}
         by_name = {}       # (epoch, instance-suffixed module name) -> raw chunk (context freeness)
         requests = []      # for the twin replay
@@ -369,6 +377,7 @@ class Scenario:
             res.hist('ops', op[0])
             if op[0] == 'newGen':
                 R.gens.append(py4hw.VerilogGenerator(g.objs[op[1]]))
+                gen_own.append(op[1])        # the circuit the generator was constructed for: what a default-object request means
                 self.q(f'op newGen {op[1]}')
                 heap_len += 1
             elif op[0] == 'poison':
@@ -427,7 +436,7 @@ class Scenario:
                 api = op[0]
                 gen = R.gens[op[1]]
                 obj = None if op[2] is None else g.objs[op[2]]
-                tgt = op[2] if op[2] is not None else g.oid[id(gen.obj)]
+                tgt = op[2] if op[2] is not None else gen_own[op[1]]
                 lst = None
                 s0 = L.snapshot(g)
                 if api == 'getVerilog':
@@ -455,6 +464,23 @@ class Scenario:
                 if s0 != s1:
                     df = L.snap_diff(s0, s1)
                     self.fail(f'{api} altered the object graph: ' + '; '.join(df[:3]), self.rp(via='snapshot', diff=df[:6]))
+                # --- oracle 2b: a request with the object omitted describes the circuit the generator was constructed for,
+                #     whatever was requested through that generator before: compare with a FRESH generator asked explicitly
+                if op[2] is None and lst is None:
+                    save2 = (R.R.wire_names_cache_obj, R.R.wire_names_cache)
+                    own = g.objs[tgt]
+                    if api == 'getVerilog':
+                        rf = R.call(lambda: py4hw.VerilogGenerator(own).getVerilog(own, noInstanceNumber=bool(op[3]), forceName=op[4]))
+                    else:
+                        rf = R.call(lambda: py4hw.VerilogGenerator(own).getVerilogForHierarchy(own, noInstanceNumberInTopEntity=bool(op[3]),
+                                                                                               forceName=op[4]))
+                    R.R.wire_names_cache_obj, R.R.wire_names_cache = save2
+                    res.count(('default-object', self.label, len(self.replay_ops)), hist={'default_object_requests': api})
+                    if (r[0], L.canon_text(r[1], ids) if r[0] == 'ok' else None) != (rf[0], L.canon_text(rf[1], ids) if rf[0] == 'ok' else None):
+                        self.fail(f'{api}() with the object omitted, on generator {op[1]} constructed for object {tgt}, does not describe that object '
+                                  f'(a fresh generator asked explicitly gives a different text)',
+                                  self.rp(via='default object', generator=op[1], own_object=tgt, default_request=str(r[1])[:400],
+                                          fresh_explicit=str(rf[1])[:400]))
                 # --- oracle 2: repetition / interleaving: same request, same text (up to Canon)
                 if r[0] == 'ok':
                     ct = L.canon_text(r[1], ids)
@@ -782,7 +808,7 @@ def exhaustive_sequences(res, rng, tier, kws):
     alphabet = []
     for o in tops[:2]:
         alphabet += [('getVerilog', 0, o, 0, None), ('getHier', 0, o, 1, None, None), ('getHier', 1, o, 0, None, 0)]
-    alphabet += [('getVerilog', 1, leaf, 0, None), ('getVerilog', 0, None, 1, None), ('sim', [('clk', 1)]), ('getHier', 1, None, 1, None, 0)]
+    alphabet += [('getVerilog', 1, leaf, 0, None), ('getVerilog', 0, None, 1, None), ('sim', [('clk', 1)]), ('getHier', 1, None, 1, None, 0), ('getHier', 0, None, 1, None, None)]
     depth = 2 if tier == 'quick' else 3
     scs = []
     n = 0
